@@ -215,7 +215,7 @@ class RoundTrip(Relation):
             'precision': st.integers(1, 12),
             'share': st.sampled_from(['different', 'all_equal', 'partly']),
             'regions': st.lists(decorated(), min_size=1, max_size=n),
-            'edits': st.lists(st.integers(0, 7), min_size=1, max_size=n),
+            'edits': st.lists(st.integers(0, 8), min_size=1, max_size=n),
             # text labels given to the whole LIST, in order: the delimiter one
             # label needs ({} "" '') must not carry over to the next region
             'texts': st.one_of(st.none(), st.none(), st.lists(
@@ -359,7 +359,26 @@ def _edit_parsed(reg, kind):
     if kind == 7:
         m['tag'] = ['new tag']
         return 'set tag'
+    if kind == 8:
+        # the same place on the sky, now written in another frame
+        from astropy.coordinates import SkyCoord
+        done = False
+        for par in ('center', 'vertices', 'start', 'end'):
+            val = getattr(reg, par, None)
+            if isinstance(val, SkyCoord):
+                new = {'galactic': 'icrs', 'icrs': 'galactic',
+                       'fk5': 'galactic', 'fk4': 'icrs'}.get(val.frame.name)
+                if new is None:
+                    continue
+                setattr(reg, par, val.transform_to(new))
+                done = True
+        return 'reframe' if done else None
     return None
+
+
+def _is_sky(v):
+    from astropy.coordinates import SkyCoord
+    return isinstance(v, SkyCoord)
 
 
 def _edited(self, ctx, sp, P2, p):
@@ -367,10 +386,13 @@ def _edited(self, ctx, sp, P2, p):
     E = list(P2)
     kinds = sp.get('edits') or [0]
     done = []
+    reframed = set()
     for i, reg in enumerate(E):
         lab = _edit_parsed(reg, kinds[i % len(kinds)])
         if lab:
             done.append(lab)
+        if lab == 'reframe':
+            reframed.add(i)
     if not done:
         return
     ctx.label(*{'edit:' + d for d in done})
@@ -378,11 +400,29 @@ def _edited(self, ctx, sp, P2, p):
     PE = Regions.parse(textE, format='ds9')
     ctx.check(len(PE) == len(E), 'edited | count changes in the round trip of '
               'edited parsed regions', textE)
-    for A, B in zip(E, PE):
+    for i, (A, B) in enumerate(zip(E, PE)):
         tag = type(A).__name__
         ctx.check(type(A) is type(B), f'{tag} | edited: class changes')
         same = True
         for par in A._params:
+            if i in reframed and _is_sky(getattr(A, par)):
+                # the edited position has all its digits: what comes back
+                # is the same place, in the frame it now has, to the
+                # precision asked for
+                a, b = getattr(A, par), getattr(B, par, None)
+                ok = (_is_sky(b) and b.frame.name == a.frame.name
+                      and np.shape(b) == np.shape(a))
+                ctx.check(ok, f'{tag} | edited: {par} of a parsed region '
+                          'moved to another frame comes back in a different '
+                          'frame', lambda: f'{a!r}\n{b!r}\n{textE}')
+                if ok:
+                    sep = np.max(np.atleast_1d(a.separation(b).deg))
+                    ctx.check(sep <= 1.01 * 10.0 ** -p + 1e-10,
+                              f'{tag} | edited: {par} of a parsed region moved '
+                              'to another frame is another place on the sky '
+                              'after the round trip',
+                              lambda: f'{sep} deg\n{a!r}\n{b!r}\n{textE}')
+                continue
             try:
                 same = same and not np.any(getattr(A, par) != getattr(B, par))
             except Exception:   # noqa: BLE001
